@@ -6,6 +6,7 @@
                             anything else goes through Pattern.value
      py_contains x c        x in c          (lists and tuples, with ==; str / dict: outside the model; other types: TypeError)
      py_list_index c x      c.index(x)      (ValueError if absent)
+     py_seq_item c i        Pattern.value(c[i]) on a list / tuple value (IndexError / TypeError as Python)
      py_getitem c k         c[k]            (dict with str keys: KeyError if absent, TypeError for an unhashable key;
                                              None: TypeError; other containers / keys: outside the model)
    No proofs here. *)
@@ -41,4 +42,16 @@ Definition py_getitem (c k : val) : outcome val :=
   | VDict d, _ => Raise KeyError
   | VNone, _ => Raise TypeError
   | _, _ => Inexact
+  end.
+
+(* Pattern.value(c[i]) on a list / tuple VALUE c (its items are plain values); the index must be an int *)
+Definition py_seq_item (c i : val) : outcome val :=
+  match int_of i with
+  | Some z =>
+      match c with
+      | VList l | VTup l => match py_index l z with Some v => Yield v | None => Raise IndexError end
+      | VStr _ | VDict _ => Inexact
+      | _ => Raise TypeError
+      end
+  | None => Raise TypeError
   end.
